@@ -274,8 +274,10 @@ func workDir() string {
 func (Prop) RunImpl(c fw.Case) []string { return runCase(c, "i") }
 
 // Oracle: FIFO judged from the implementation's own answers.
-//   accepted: ids of appends answered ok, in order
-//   delivered: ids returned by `current` immediately followed by a successful `advance`
+//
+//	accepted: ids of appends answered ok, in order
+//	delivered: ids returned by `current` immediately followed by a successful `advance`
+//
 // delivered must be a prefix-order subsequence: every accepted block comes out exactly once and
 // in the order accepted, except blocks discarded for a documented reason (age purge here);
 // Empty() must answer true exactly when nothing is pending.
